@@ -1,4 +1,4 @@
-use crate::value::{Key, ValueInner};
+use crate::value::{Key, ValueInner, ordered_entries};
 use crate::{HashMap, Value};
 use std::sync::Arc;
 
@@ -156,8 +156,10 @@ pub(crate) fn create_for_loop_iterator(value: &Value) -> Option<ForLoopIterator>
         }),
 
         ValueInner::Map(map) => {
-            let pairs: Vec<(Key<'static>, Value)> =
-                map.iter().map(|(k, v)| (k.clone(), v.clone())).collect();
+            let pairs: Vec<(Key<'static>, Value)> = ordered_entries(map)
+                .into_iter()
+                .map(|(k, v)| (k.clone(), v.clone()))
+                .collect();
             Some(ForLoopIterator::Map {
                 pairs: pairs.into_iter(),
             })
